@@ -1198,7 +1198,7 @@ func c11GenProg(r *Rng, cfg c11GenCfg) (*c11GProg, []*c11FileCtx) {
 var c11CheckedKinds = []string{"dup-service", "conflict-service", "dup-method", "conflict-method", "dup-scope", "conflict-scope",
 	"dup-op", "conflict-op", "dup-include", "const-type", "const-ref", "typedef-type", "typedef-cycle", "typedef-self",
 	"field-type", "dup-field-id", "ret-type", "arg-type", "exc-type", "oneway-throws", "oneway-returns", "dup-arg-id",
-	"op-type", "bad-include-name", "missing-include", "circular-include", "vendor-wildcard", "include-type"}
+	"op-type", "bad-include-name", "missing-include", "circular-include", "vendor-wildcard", "include-type", "bare-container-type"}
 
 // Kinds nothing checks before generation (recorded finding `unchecked-semantic-errors`):
 // tolerated outcomes are a diagnostic, a recovered panic, or even exit 0; never crash / hang.
@@ -1364,6 +1364,14 @@ func c11Inject(r *Rng, p *c11GProg, kind string) bool {
 		}
 	case "vendor-wildcard":
 		f.vendorWild = true
+	case "bare-container-type":
+		// a container keyword without element types used as a type name (`1: list x`)
+		bare := &c11GTy{name: []string{"list", "set", "map"}[r.Intn(3)]}
+		if r.Bool() {
+			f.structs = append(f.structs, &c11GStruct{kind: "struct", name: "UsesBareContainer", fields: []*c11GField{{id: 1, name: "x", t: bare}}})
+		} else {
+			f.typedefs = append(f.typedefs, &c11GTypedef{name: "bare_alias", t: bare})
+		}
 	case "include-type":
 		// a qualified type whose include is not included by this file
 		f.structs = append(f.structs, &c11GStruct{kind: "struct", name: "UsesMissingInclude", fields: []*c11GField{{id: 1, name: "x", t: &c11GTy{name: "nowhere.Thing"}}}})
